@@ -8,18 +8,18 @@ import (
 
 	"verif/chk"
 	_ "verif/e2"
+	_ "verif/e3/c09"
 	_ "verif/e3/c10"
 	_ "verif/e3/c11"
 	_ "verif/e3/c12"
+	_ "verif/e3/c13"
 	_ "verif/e3/c14"
+	_ "verif/e3/c15"
 	_ "verif/e3/c16"
 	_ "verif/e3/c17"
-	_ "verif/e3/c15"
 	_ "verif/e3/c18"
 	_ "verif/e3/c19"
 	_ "verif/e3/c20"
-	_ "verif/e3/c09"
-	_ "verif/e3/c13"
 )
 
 func main() { chk.Main(os.Args[1:]) }
